@@ -178,7 +178,7 @@ theorem observe_some (m : Mem) (c : Full) (h : observe m = some c) :
 
 theorem observeLayer_some (m : Mem) (l : MLayer) (b : DLayer) (h : observeLayer m l = some b) :
     b.name = l.name ∧ b.info = l.info ∧
-    fill (diskGlyph? m.bound l.name (l.name = m.defaultName)) l.glyphs = some b.glyphs := by
+    fill (diskGlyph? m.bound l.src) l.glyphs = some b.glyphs := by
   unfold observeLayer at h
   simp only [Option.map_eq_some_iff] at h
   obtain ⟨gs, hgs, rfl⟩ := h
@@ -213,28 +213,36 @@ theorem map_id_snd {α : Type} (l : List (String × α)) : l.map (fun p => (p.1,
   | nil => rfl
   | cons p r ih => simp
 
-theorem mem_of_diskGlyph? (d : Disk) (name : String) (isd : Bool) (g : String) (v : Glyph)
-    (h : diskGlyph? (some d) name isd g = some v) : ∃ l ∈ d.layers, (g, v) ∈ l.glyphs := by
+theorem mem_of_diskGlyph? (d : Disk) (src : Option String) (g : String) (v : Glyph)
+    (h : diskGlyph? (some d) src g = some v) : ∃ l ∈ d.layers, (g, v) ∈ l.glyphs := by
   unfold diskGlyph? at h
-  cases hl : diskLayer? (some d) name isd with
+  cases hl : diskLayer? (some d) src with
   | none => simp [hl] at h
   | some l =>
     simp only [hl] at h
     refine ⟨l, ?_, AL.mem_of_get? h⟩
     unfold diskLayer? at hl
-    simp only at hl
-    split at hl
-    · exact List.mem_of_find?_eq_some hl
-    · split at hl
-      · exact List.mem_of_mem_head? hl
-      · cases hl
+    cases src with
+    | none => simp at hl
+    | some s => exact List.mem_of_find?_eq_some hl
+
+/-- a layer whose glyphs are all loaded shows them, whatever glyph set it has -/
+theorem observeLayer_loaded (m' : Mem) (a : MLayer) (b : DLayer) (src : Option String)
+    (h1 : b.name = a.name) (h2 : b.info = a.info) :
+    observeLayer m' { a with src := src, glyphs := loaded b.glyphs } = some b := by
+  unfold observeLayer
+  simp only [fill_loaded, Option.map_some]
+  cases b
+  simp at h1 h2 ⊢
+  exact ⟨h1.symm, h2.symm⟩
 
 /-- the heart of `memory_unchanged`: the font bound to the UFO it has just written still sees
-exactly the content it saw before -/
+exactly the content it saw before - whatever the layers are called in memory by now and whichever
+directory of the old UFO each of them was reading from -/
 theorem observe_after_save (find : Finder) (m : Mem) (c : Full) (d : Disk) (t : Fmt) (saveAs : Bool)
     (wf : MemWF m) (hb : BoundGlif1 m) (hsa : saveAs = false → m.fmt = some t)
     (hc : observe m = some c) (hd : write find t m.maps c = some d) :
-    observe { preload m c t saveAs with bound := some d, fmt := some t } = some c := by
+    observe (afterSave m c t saveAs d) = some c := by
   obtain ⟨hl, him, hda, hdn, hpa⟩ := observe_some m c hc
   have hnames : c.layers.map (fun l => l.name) = m.layers.map (fun l => l.name) :=
     allSome_map_names (observeLayer m) (fun l => l.name) (fun l => l.name) m.layers c.layers hl
@@ -245,84 +253,91 @@ theorem observe_after_save (find : Finder) (m : Mem) (c : Full) (d : Disk) (t : 
     intro a _ b hb' hab
     have := find?_name_of_mem c.layers b hcn hb'
     rwa [(observeLayer_some m a b hab).1] at this
-  -- a layer that the save reads completely
-  have hloadedLayer : ∀ (bd : Option Disk) (dn : String) (a : MLayer) (b : DLayer), observeLayer m a = some b →
-      (fill (diskGlyph? bd a.name (a.name = dn)) (loaded b.glyphs)).map (fun gs => (⟨a.name, gs, a.info⟩ : DLayer)) = some b := by
-    intro bd dn a b hab
-    obtain ⟨h1, h2, _⟩ := observeLayer_some m a b hab
-    rw [fill_loaded]
-    cases b
-    simp at h1 h2 ⊢
-    exact ⟨h1.symm, h2.symm⟩
-  generalize hm' : ({ preload m c t saveAs with bound := some d, fmt := some t } : Mem) = m'
+  generalize hm' : afterSave m c t saveAs d = m'
   have hbnd : m'.bound = some d := by subst hm'; rfl
   have hdef' : m'.defaultName = m.defaultName := by subst hm'; rfl
   have hparts' : m'.parts = m.parts := by subst hm'; rfl
-  have hlayers' : m'.layers = m.layers.map (fun l =>
-      if (if t.below3 then (l.name = m.defaultName && !saveAs) else !saveAs) = true then l
-      else match c.layers.find? (fun x => x.name = l.name) with
-        | some x => ⟨l.name, loaded x.glyphs, l.info⟩
-        | none => l) := by subst hm'; rfl
+  have hlayers' : m'.layers = m.layers.map (fun l => rebind m t (preloadLayer m c t saveAs l)) := by
+    subst hm'; simp [afterSave, List.map_map, Function.comp_def]
   have himages' : m'.images = if t.below3 then loaded c.images else m.images := by subst hm'; rfl
   have hdata' : m'.data = if t.below3 then loaded c.data else m.data := by subst hm'; rfl
   have hobsL : ∀ l, observeLayer m' l =
-      (fill (diskGlyph? (some d) l.name (l.name = m.defaultName)) l.glyphs).map (fun gs => (⟨l.name, gs, l.info⟩ : DLayer)) := by
-    intro l; unfold observeLayer; rw [hbnd, hdef']
+      (fill (diskGlyph? (some d) l.src) l.glyphs).map (fun gs => (⟨l.name, gs, l.info⟩ : DLayer)) := by
+    intro l; unfold observeLayer; rw [hbnd]
   clear hm'
-  unfold observe
-  rw [hlayers', himages', hdata', hbnd, hdef', hparts']
-  cases hbt : t.below3 with
-  | true =>
-    obtain ⟨hfmt, hlayers, himg, hdat⟩ := write_below3 find t hbt m.maps c d hd
-    have hne3 : d.fmt ≠ .f3 := by rw [hfmt]; intro e; rw [e] at hbt; simp [Fmt.below3] at hbt
-    simp only [if_true]
-    have hlay : allSome ((m.layers.map (fun l =>
-        if (l.name = m.defaultName && !saveAs) = true then l
-        else match c.layers.find? (fun x => x.name = l.name) with
-          | some x => ⟨l.name, loaded x.glyphs, l.info⟩
-          | none => l)).map (observeLayer m')) = some c.layers := by
-      apply allSome_map_transfer (observeLayer m) _ _ m.layers c.layers hl
-      intro a ha b hb' hab
-      obtain ⟨h1, h2, h3⟩ := observeLayer_some m a b hab
-      by_cases hk : (a.name = m.defaultName && !saveAs) = true
-      · -- the default layer on a plain in-place save: still bound to the one glyph directory
-        simp only [hk, if_true]
-        simp only [Bool.and_eq_true, decide_eq_true_eq, Bool.not_eq_true'] at hk
+  -- the layers
+  have hlay : allSome ((m.layers.map (fun l => rebind m t (preloadLayer m c t saveAs l))).map (observeLayer m')) =
+      some c.layers := by
+    apply allSome_map_transfer (observeLayer m) _ _ m.layers c.layers hl
+    intro a ha b hb' hab
+    obtain ⟨h1, h2, h3⟩ := observeLayer_some m a b hab
+    cases hk : keepLazy m t saveAs a with
+    | false =>
+      -- the save reads the layer completely
+      have hpl : preloadLayer m c t saveAs a = { a with glyphs := loaded b.glyphs } := by
+        unfold preloadLayer
+        simp [hk, hfind a ha b hb' hab]
+      rw [hpl]
+      exact observeLayer_loaded m' a b _ h1 h2
+    | true =>
+      have hpl : preloadLayer m c t saveAs a = a := by unfold preloadLayer; simp [hk]
+      rw [hpl, hobsL]
+      unfold keepLazy at hk
+      cases hbt : t.below3 with
+      | true =>
+        -- the default layer on a plain in-place save below format 3: bound to the one glyph directory
+        simp only [hbt, if_true, Bool.and_eq_true, decide_eq_true_eq, Bool.not_eq_true'] at hk
         obtain ⟨hdef, hsaf⟩ := hk
-        rw [hobsL]
-        simp only [hdef, decide_true]
-        have hdg : diskGlyph? (some d) m.defaultName true =
+        obtain ⟨hfmt, hlayers, _, _⟩ := write_below3 find t hbt m.maps c d hd
+        have hdg : diskGlyph? (some d) (rebind m t a).src =
             fun n => AL.get? (b.glyphs.map (fun p => (p.1, glif1 p.2))) n := by
           funext n
-          unfold diskGlyph? diskLayer?
-          simp only [hne3, if_false, if_true, hlayers, List.head?_cons]
           have : defaultGlyphs c = b.glyphs := by
             unfold defaultGlyphs
             rw [hdn, ← hdef, hfind a ha b hb' hab]
-          rw [this]
+          simp [diskGlyph?, diskLayer?, rebind, hbt, hdef, hlayers, this]
         rw [hdg]
-        rw [hdef] at h3
-        simp only [decide_true] at h3
-        have := fill_stable glif1 (diskGlyph? m.bound m.defaultName true) a.glyphs b.glyphs (wf.glyphNames a ha) h3 (by
+        have := fill_stable glif1 (diskGlyph? m.bound a.src) a.glyphs b.glyphs (wf.glyphNames a ha) h3 (by
           intro n v _ hold
           cases hbd : m.bound with
           | none => rw [hbd] at hold; simp [diskGlyph?, diskLayer?] at hold
           | some d0 =>
             rw [hbd] at hold
-            obtain ⟨l0, hl0, hmem⟩ := mem_of_diskGlyph? d0 _ _ _ _ hold
+            obtain ⟨l0, hl0, hmem⟩ := mem_of_diskGlyph? d0 _ _ _ hold
             have hf0 : d0.fmt = t := by
               have := wf.boundFmt d0 hbd
               rw [hsa hsaf] at this
               exact (Option.some.inj this).symm
             exact hb d0 hbd (by rw [hf0]; intro e; rw [e] at hbt; simp [Fmt.below3] at hbt) l0 hl0 (n, v) hmem)
-        rw [this]
+        have hrn : (rebind m t a).glyphs = a.glyphs ∧ (rebind m t a).name = a.name ∧ (rebind m t a).info = a.info :=
+          ⟨rfl, rfl, rfl⟩
+        rw [hrn.1, hrn.2.1, hrn.2.2, this]
         cases b
         simp at h1 h2 ⊢
-        exact ⟨hdef ▸ h1.symm, h2.symm⟩
-      · simp only [hk, if_false, hfind a ha b hb' hab]
-        rw [hobsL]
-        exact hloadedLayer _ _ a b hab
-    rw [hlay, fill_loaded, fill_loaded]
+        exact ⟨h1.symm, h2.symm⟩
+      | false =>
+        have ht3 : t = .f3 := by cases t <;> simp [Fmt.below3] at hbt ⊢
+        subst ht3
+        obtain ⟨hfmt, hlayers, _, _⟩ := write_f3 find m.maps c d hd
+        have hdg : diskGlyph? (some d) (rebind m .f3 a).src =
+            fun n => AL.get? (b.glyphs.map (fun p => (p.1, id p.2))) n := by
+          funext n
+          simp [diskGlyph?, diskLayer?, rebind, Fmt.below3, hlayers, hfind a ha b hb' hab, map_id_snd]
+        rw [hdg]
+        have := fill_stable id (diskGlyph? m.bound a.src) a.glyphs b.glyphs
+          (wf.glyphNames a ha) h3 (fun _ _ _ _ => rfl)
+        have hrn : (rebind m .f3 a).glyphs = a.glyphs ∧ (rebind m .f3 a).name = a.name ∧ (rebind m .f3 a).info = a.info :=
+          ⟨rfl, rfl, rfl⟩
+        rw [hrn.1, hrn.2.1, hrn.2.2, this]
+        cases b
+        simp at h1 h2 ⊢
+        exact ⟨h1.symm, h2.symm⟩
+  unfold observe
+  rw [hlayers', hlay, himages', hdata', hbnd, hdef', hparts']
+  cases hbt : t.below3 with
+  | true =>
+    simp only [if_true]
+    rw [fill_loaded, fill_loaded]
     cases c
     simp at hdn hpa ⊢
     exact ⟨hdn.symm, hpa.symm⟩
@@ -331,33 +346,6 @@ theorem observe_after_save (find : Finder) (m : Mem) (c : Full) (d : Disk) (t : 
     subst ht3
     obtain ⟨hfmt, hlayers, himg, hdat⟩ := write_f3 find m.maps c d hd
     simp only [Bool.false_eq_true, if_false]
-    have hlay : allSome ((m.layers.map (fun l =>
-        if (!saveAs) = true then l
-        else match c.layers.find? (fun x => x.name = l.name) with
-          | some x => ⟨l.name, loaded x.glyphs, l.info⟩
-          | none => l)).map (observeLayer m')) = some c.layers := by
-      apply allSome_map_transfer (observeLayer m) _ _ m.layers c.layers hl
-      intro a ha b hb' hab
-      obtain ⟨h1, h2, h3⟩ := observeLayer_some m a b hab
-      by_cases hk : (!saveAs) = true
-      · simp only [hk, if_true]
-        rw [hobsL]
-        have hdg : diskGlyph? (some d) a.name (decide (a.name = m.defaultName)) =
-            fun n => AL.get? (b.glyphs.map (fun p => (p.1, id p.2))) n := by
-          funext n
-          unfold diskGlyph? diskLayer?
-          simp only [hfmt, if_true, hlayers, hfind a ha b hb' hab, map_id_snd]
-        rw [hdg]
-        have := fill_stable id (diskGlyph? m.bound a.name (decide (a.name = m.defaultName))) a.glyphs b.glyphs
-          (wf.glyphNames a ha) h3 (fun _ _ _ _ => rfl)
-        rw [this]
-        cases b
-        simp at h1 h2 ⊢
-        exact ⟨h1.symm, h2.symm⟩
-      · simp only [hk, if_false, hfind a ha b hb' hab]
-        rw [hobsL]
-        exact hloadedLayer _ _ a b hab
-    rw [hlay]
     have hi : fill (diskImage? (some d)) m.images = some c.images := by
       have := fill_stable id (diskImage? m.bound) m.images c.images wf.imageNames him (fun _ _ _ _ => rfl)
       rw [map_id_snd] at this
@@ -446,23 +434,16 @@ theorem write_wf (find : Finder) (t : Fmt) (maps : Option Maps) (c : Full) (d : 
 theorem observe_read (d : Disk) (mp : Maps) (r : Mem) (wf : DiskWF d) (h : read d mp = some r) :
     ∃ parts, readParts d mp = some parts ∧ observe r = some ⟨d.layers, d.defaultName, parts, d.images, d.data⟩ := by
   have hobs : ∀ (r' : Mem), r'.bound = some d → r'.defaultName = d.defaultName → ∀ a ∈ d.layers,
-      observeLayer r' ⟨a.name, unloaded a.glyphs, a.info⟩ = some a := by
+      observeLayer r' ⟨a.name, some a.name, unloaded a.glyphs, a.info⟩ = some a := by
     intro r' hb hdn a ha
     unfold observeLayer
-    simp only [hb, hdn]
-    have hdg : diskGlyph? (some d) a.name (decide (a.name = d.defaultName)) = fun n => AL.get? a.glyphs n := by
+    simp only [hb]
+    have hdg : diskGlyph? (some d) (some a.name) = fun n => AL.get? a.glyphs n := by
       funext n
       unfold diskGlyph? diskLayer?
       simp only
-      by_cases hf : d.fmt = .f3
-      · simp only [hf, if_true]
-        have := find?_name_of_mem d.layers a wf.layerNames ha
-        rw [this]
-      · obtain ⟨l, hl, hln⟩ := wf.single hf
-        rw [hl] at ha
-        simp only [List.mem_singleton] at ha
-        subst ha
-        simp [hf, hl, hln]
+      have := find?_name_of_mem d.layers a wf.layerNames ha
+      rw [this]
     rw [hdg, fill_unloaded a.glyphs (wf.glyphNames a ha)]
     rfl
   have h0 : allSome (d.layers.map (fun l => some l)) = some d.layers := by
@@ -497,7 +478,7 @@ theorem split_ok_lossless (find : Finder) (hf : FinderOK find) (text : Text) :
 theorem save_some (find : Finder) (m m' : Mem) (t : Fmt) (ip : Bool) (c : Full) (hc : observe m = some c)
     (h : save find m t ip = some m') :
     ∃ d, write find t m.maps c = some d ∧
-      m' = { preload m c t (!ip || decide (m.fmt ≠ some t)) with bound := some d, fmt := some t } := by
+      m' = afterSave m c t (!ip || decide (m.fmt ≠ some t)) d := by
   unfold save at h
   rw [hc] at h
   simp only at h
@@ -595,13 +576,32 @@ theorem preloadLayer_name (m : Mem) (c : Full) (t : Fmt) (sa : Bool) (l : MLayer
 theorem preloadLayer_cases (m : Mem) (c : Full) (t : Fmt) (sa : Bool) (l : MLayer) :
     preloadLayer m c t sa l = l ∨
     ∃ x, c.layers.find? (fun x => x.name = l.name) = some x ∧ keepLazy m t sa l = false ∧
-      preloadLayer m c t sa l = ⟨l.name, loaded x.glyphs, l.info⟩ := by
+      preloadLayer m c t sa l = { l with glyphs := loaded x.glyphs } := by
   cases hk : keepLazy m t sa l with
   | true => left; unfold preloadLayer; simp [hk]
   | false =>
     cases hf : c.layers.find? (fun x => decide (x.name = l.name)) with
     | none => left; unfold preloadLayer; simp [hk, hf]
     | some x => right; exact ⟨x, rfl, rfl, by unfold preloadLayer; simp [hk, hf]⟩
+
+@[simp] theorem rebind_name (m : Mem) (t : Fmt) (l : MLayer) : (rebind m t l).name = l.name := rfl
+@[simp] theorem rebind_glyphs (m : Mem) (t : Fmt) (l : MLayer) : (rebind m t l).glyphs = l.glyphs := rfl
+@[simp] theorem rebind_info (m : Mem) (t : Fmt) (l : MLayer) : (rebind m t l).info = l.info := rfl
+
+theorem afterSave_layers (m : Mem) (c : Full) (t : Fmt) (sa : Bool) (d : Disk) :
+    (afterSave m c t sa d).layers = m.layers.map (fun l => rebind m t (preloadLayer m c t sa l)) := by
+  simp [afterSave, List.map_map, Function.comp_def]
+
+theorem afterSave_images (m : Mem) (c : Full) (t : Fmt) (sa : Bool) (d : Disk) :
+    (afterSave m c t sa d).images = if t.below3 then loaded c.images else m.images := rfl
+
+theorem afterSave_data (m : Mem) (c : Full) (t : Fmt) (sa : Bool) (d : Disk) :
+    (afterSave m c t sa d).data = if t.below3 then loaded c.data else m.data := rfl
+
+theorem afterSave_bound (m : Mem) (c : Full) (t : Fmt) (sa : Bool) (d : Disk) :
+    (afterSave m c t sa d).bound = some d ∧ (afterSave m c t sa d).fmt = some t ∧
+    (afterSave m c t sa d).maps = m.maps ∧ (afterSave m c t sa d).defaultName = m.defaultName ∧
+    (afterSave m c t sa d).parts = m.parts := ⟨rfl, rfl, rfl, rfl, rfl⟩
 
 /-- the invariants hold for a freshly opened font … -/
 theorem read_wf (d : Disk) (mp : Maps) (m : Mem) (wf : DiskWF d) (hg : DiskGlif1 d) (h : read d mp = some m) :
@@ -631,27 +631,30 @@ theorem save_wf (find : Finder) (m m' : Mem) (t : Fmt) (ip : Bool) (wf : MemWF m
     have wfc := observe_wf m c wf hc
     obtain ⟨hl, him, hda, _, _⟩ := observe_some m c hc
     refine ⟨⟨?_, ?_, ?_, ?_, ?_⟩, ?_⟩
-    · simp only [preload, List.map_map, Function.comp_def, preloadLayer_name]
+    · simp only [afterSave_layers, List.map_map, Function.comp_def, rebind_name, preloadLayer_name]
       exact wf.layerNames
     · intro l hl
-      simp only [preload, List.mem_map] at hl
+      simp only [afterSave_layers, List.mem_map] at hl
       obtain ⟨a, ha, rfl⟩ := hl
+      rw [rebind_glyphs]
       rcases preloadLayer_cases m c t (!ip || decide (m.fmt ≠ some t)) a with h1 | ⟨x, hx, _, h1⟩
       · rw [h1]; exact wf.glyphNames a ha
       · rw [h1]
         simp only [keys_loaded]
         exact wfc.glyphNames x (List.mem_of_find?_eq_some hx)
-    · simp only [preload]
+    · rw [afterSave_images]
       split
       · rw [keys_loaded]; exact wfc.imageNames
       · exact wf.imageNames
-    · simp only [preload]
+    · rw [afterSave_data]
       split
       · rw [keys_loaded]; exact wfc.dataNames
       · exact wf.dataNames
     · intro d' hd'
+      rw [(afterSave_bound m c t _ d).1] at hd'
       simp only [Option.some.injEq] at hd'
       subst hd'
+      rw [(afterSave_bound m c t _ d).2.1]
       cases hbt : t.below3 with
       | false =>
         have ht3 : t = .f3 := by cases t <;> simp [Fmt.below3] at hbt ⊢
@@ -659,6 +662,7 @@ theorem save_wf (find : Finder) (m m' : Mem) (t : Fmt) (ip : Bool) (wf : MemWF m
         rw [(write_f3 find m.maps c d hd).1]
       | true => rw [(write_below3 find t hbt m.maps c d hd).1]
     · intro d' hd'
+      rw [(afterSave_bound m c t _ d).1] at hd'
       simp only [Option.some.injEq] at hd'
       subst hd'
       exact write_glif1 find t m.maps c d hd
@@ -683,12 +687,13 @@ theorem below3_all_loaded (find : Finder) (m m' : Mem) (t : Fmt) (ip : Bool) (ht
       obtain ⟨q, _, rfl⟩ := hp
       rfl
     refine ⟨?_, ?_, ?_⟩
-    · simp only [preload, ht, if_true]; exact hld _
-    · simp only [preload, ht, if_true]; exact hld _
+    · rw [afterSave_images]; simp only [ht, if_true]; exact hld _
+    · rw [afterSave_data]; simp only [ht, if_true]; exact hld _
     · intro l hl' hcond p hp
-      simp only [preload, List.mem_map] at hl'
+      simp only [afterSave_layers, List.mem_map] at hl'
       obtain ⟨a, ha, rfl⟩ := hl'
-      rw [preloadLayer_name] at hcond
+      rw [rebind_name, preloadLayer_name] at hcond
+      rw [rebind_glyphs] at hp
       have hkeep : keepLazy m t (!ip || decide (m.fmt ≠ some t)) a = false := by
         unfold keepLazy
         simp only [ht, if_true]
@@ -735,6 +740,7 @@ theorem back_to_3 (find : Finder) (d0 d : Disk) (mp : Maps) (m m' : Mem) (ip : B
   | none => unfold save at hs; simp [hc] at hs
   | some c =>
     obtain ⟨d', hd', rfl⟩ := save_some find m m' .f3 ip c hc hs
+    rw [(afterSave_bound m c .f3 _ d').1] at hb
     simp only [Option.some.injEq] at hb
     subst hb
     obtain ⟨_, _, _, _, hpa⟩ := observe_some m c hc
